@@ -493,7 +493,7 @@ fn main() {
         let hot_pool: Vec<&md::Spec> = if ttl_hot {
             usable.iter().filter(|s| s.ttl.is_some() && s.limit.map(|l| l <= 3).unwrap_or(false) && s.max_mem.is_none() && !s.is_result && s.is_async == (variant % 2 == 1)).collect()
         } else if result_hot {
-            usable.iter().filter(|s| s.limit.is_none() && s.max_mem.is_none() && s.ttl.is_none() && s.is_result && s.is_async == (variant % 2 == 1)).collect()
+            usable.iter().filter(|s| s.limit.is_none() && s.max_mem.is_none() && s.ttl.is_none() && s.recognised_result && s.is_async == (variant % 2 == 1)).collect()
         } else if plain_hot {
             usable.iter().filter(|s| s.limit.is_none() && s.max_mem.is_none() && s.ttl.is_none() && !s.is_result && s.is_async == ((variant / 2) % 2 == 1)).collect()
         } else if calls_only {
